@@ -25,7 +25,7 @@ BUDGET = {"quick": 85, "thorough": 900}
 FLOORS = {"reversals": {"quick": 250, "thorough": 2500}, "determinants": {"quick": 120, "thorough": 1200}, "order_fits": {"quick": 25, "thorough": 250},
           "hastings_terms": {"quick": 120, "thorough": 1200}, "nan_region_steps": 8, "retried_then_succeeded": {"quick": 8, "thorough": 40}, "chained_reversals": {"quick": 20, "thorough": 200}, "same_start_after_target_change": {"quick": 20, "thorough": 200}, "adapted_mass_matrices": {"quick": 20, "thorough": 200},
           "low_divergence_threshold_operators": {"quick": 20, "thorough": 200}, "reassigned_small_mass_matrices": {"quick": 20, "thorough": 200},
-          "single_precision_hastings_terms": {"quick": 20, "thorough": 200}, "targets": 6}
+          "single_precision_hastings_terms": {"quick": 20, "thorough": 200}, "mixed_precision_reversals": {"quick": 8, "thorough": 80}, "operators_built_with_step_size_search": {"quick": 20, "thorough": 200}, "targets": 6}
 
 TARGETS = ["gaussian", "correlated", "gamma-exp", "beta-sigmoid", "hierarchical", "phylo-unrooted", "phylo-time-ratio"]
 IDENT = ["reversal", "reversal", "volume", "order", "hastings", "hastings"]
@@ -157,6 +157,7 @@ def run_case(case):
         return torch.cat([p.tensor.detach().clone() for p in params], -1)
 
     def flow(q, p, e=eps, steps=L):
+        nonlocal Minv
         setq(q)
         if case.get("late_step_size"):
             # the step size is (re)assigned after construction, as tuning, adaptors, find_reasonable_step_size and load_state_dict do
@@ -181,6 +182,12 @@ def run_case(case):
     moved = False
     try:
         if ident == "reversal":
+            if case["seed"] % 5 == 0 and not case["target"].startswith("phylo") and M.dim() == 1:  # (a dense single-precision matrix is declined by torch's matmul)
+                # mixed precision: the mass matrix (hence the momentum) is single precision, the model parameters are double: positions and
+                # momenta are still carried in double precision along the trajectory
+                Minv = Minv.float()
+                p0 = p0.float()
+                C["mixed_precision_reversals"] = C.get("mixed_precision_reversals", 0) + 1
             q1, p1 = flow(q0, p0)
             q2, p2 = flow(q1, -p1)
             C["reversals"] += 1
@@ -305,7 +312,28 @@ def run_hastings(case, dic, joint, params, pids, M, eps, L, V, C, detail):
     if low_threshold:
         kw["divergence_threshold"] = 1e-9  # documented option: energy errors above it are *reported*; the move is still a proposal
         C["low_divergence_threshold_operators"] = C.get("low_divergence_threshold_operators", 0) + 1
-    op = HMCOperator("hmc", joint, params, integ, mm, disable_adaptation=True, **kw)
+    searched = case["seed"] % 4 == 0
+    if searched:
+        kw["find_reasonable_step_size"] = True  # documented option: trial trajectories while the operator is constructed
+        with torch.no_grad():
+            joint()  # (the chain has evaluated its target before the operator is built)
+    import contextlib as _cl
+    import io as _io
+
+    with _cl.redirect_stdout(_io.StringIO()):
+        op = HMCOperator("hmc", joint, params, integ, mm, disable_adaptation=True, **kw)
+    if searched:
+        C["operators_built_with_step_size_search"] = C.get("operators_built_with_step_size_search", 0) + 1
+        integ.step_size = eps
+        with torch.no_grad():
+            carried = float(joint())
+        for p_ in params:
+            p_.tensor = p_.tensor.detach().clone()  # forces a recomputation at the very same values
+        with torch.no_grad():
+            fresh = float(joint())
+        if abs(carried - fresh) > 1e-12 * max(1.0, abs(fresh)):
+            V.append(tt.viol("C16:potential-energy-stale-after-step-size-search", "after HMCOperator(find_reasonable_step_size=True) the joint returns %.12g for parameter values at which it evaluates to %.12g: the first acceptance decisions use a Hamiltonian difference of another point" % (carried, fresh), **detail))
+            return
     if case["seed"] % 4 == 3 and not case.get("restored_mass"):
         # the mass matrix is re-assigned through its parameter (what adaptors and restarts do) to a matrix that differs from the old
         # one by a factor of a few, at a scale of 1e-9 (parameters measured in units of 1e4..1e5): the inverse has to follow
